@@ -60,6 +60,11 @@ Fixpoint andor_ok (t : uexpr) : bool :=
   | _ => closed t
   end.
 
+(** sqlglot's exp.cast returns its argument unchanged when it already is a CAST to the same type: such
+    (idempotent) double casts are not in the modelled fragment *)
+Fixpoint same_cast (ty : string) (t : uexpr) : bool :=
+  match t with UCast _ ty' => String.eqb ty ty' | UAlias a _ => same_cast ty a | _ => false end.
+
 Fixpoint in_class (c : cfg) (t : uexpr) : bool :=
   match t with
   | UCol _ | ULit _ | UPy _ => true
@@ -72,7 +77,8 @@ Fixpoint in_class (c : cfg) (t : uexpr) : bool :=
   | UIsNull a | UIsNotNull a | UIsin a _ | ULike a _ | UILike a _ => in_class c a && closed a
   | UBetween a lo hi => in_class c a && in_class c lo && in_class c hi && closed a && closed lo && closed hi
                          && noalias lo && noalias hi
-  | URlike a _ | UCast a _ | UAlias a _ => in_class c a
+  | URlike a _ | UAlias a _ => in_class c a
+  | UCast a ty => in_class c a && negb (same_cast ty a)
   | UStartsWith a b => in_class c a && in_class c b && noalias b
   | UEndsWith a b => in_class c a && in_class c b && String.eqb (c_endswith_fn c) "ENDS_WITH" && noalias b
   | USubstr a p l => in_class c a && in_class c p && in_class c l && noalias p && noalias l
